@@ -211,7 +211,13 @@ impl Method for UpperReversalSignal {
 			Action::None
 		};
 
-		self.index = self.index.saturating_add(1);
+		self.index += 1;
+		if self.index > self.window.len() {
+			// keep positions relative to the window, so they never reach `PeriodType::MAX`
+			self.index -= 1;
+			self.max_index -= 1;
+		}
+
 		s
 	}
 }
@@ -345,7 +351,13 @@ impl Method for LowerReversalSignal {
 			Action::None
 		};
 
-		self.index = self.index.saturating_add(1);
+		self.index += 1;
+		if self.index > self.window.len() {
+			// keep positions relative to the window, so they never reach `PeriodType::MAX`
+			self.index -= 1;
+			self.min_index -= 1;
+		}
+
 		s
 	}
 }
